@@ -275,9 +275,27 @@ def builtin(ex, st, fr, name, a, x, work):
     if name in ('_ZNSolsEi', '_ZNSolsEl', '_ZNSo9_M_insertIlEERSoT_', '_ZNSo9_M_insertImEERSoT_', '_ZNSolsEj', '_ZNSolsEm', '_ZNSolsEs', '_ZNSolsEt'):
         S.add('std::ostream::operator<<(integer) -> memfile (decimal, width/fill honoured; concrete values only)')
         mf = mf_get(st, fid_of(st, a[0])); v = a[1]
-        if not isc(v): raise Violation('unsupported', 'formatted output of a symbolic integer', st)
         w = x['args'][1].ty.bits if x['args'][1] is not None else 64
         signed = name in ('_ZNSolsEi', '_ZNSolsEl', '_ZNSo9_M_insertIlEERSoT_', '_ZNSolsEs')
+        if not isc(v):
+            # symbolic integer: one path per (sign, number of digits) that is feasible; the digits are bit-vector terms
+            shapes = []
+            zero = z3.BitVecVal(0, w)
+            for neg in ((False, True) if signed else (False,)):
+                mag = (zero - v) if neg else v
+                sgn = (v < 0) if neg else ((v >= 0) if signed else z3.BoolVal(True))
+                for nd in range(1, 20 if w > 32 else 11):
+                    lo = 10 ** (nd - 1) if nd > 1 else 0; hi = 10 ** nd
+                    if lo >= (1 << (w - (1 if signed else 0))) + (1 if neg else 0): break
+                    cnd = z3.And(sgn, z3.UGE(mag, z3.BitVecVal(lo, w)), z3.ULT(mag, z3.BitVecVal(hi, w)) if hi < (1 << w) else z3.BoolVal(True))
+                    if neg and nd == 1: cnd = z3.And(cnd, mag != 0)
+                    if ex.sat(st, cnd) is None: continue
+                    digs = [z3.simplify(z3.Extract(7, 0, z3.URem(z3.UDiv(mag, z3.BitVecVal(10 ** k, w)), z3.BitVecVal(10, w))) + 48) for k in reversed(range(nd))]
+                    shapes.append((cnd, ([45] if neg else []) + digs))
+            if not shapes: return 'infeasible'
+            def emit_shape(state, bs): insert_padded(ex, state, a[0], mf_get(state, fid_of(state, a[0])), bs)
+            for cnd, bs in shapes[:-1]: ex.fork_ret(st, x, cnd, a[0], work, post=lambda o, b=bs: emit_shape(o, b))
+            cnd, bs = shapes[-1]; ex.assume(st, cnd); emit_shape(st, bs); return a[0]
         if signed and v >> (w - 1): v -= 1 << w
         insert_padded(ex, st, a[0], mf, itoa_bytes(v)); return a[0]
     if name in ('_ZNKSt12__basic_fileIcE7is_openEv',):
